@@ -177,8 +177,8 @@ func defaultCycleHazard(t schema.Type) (hazard bool) {
 }
 
 // reachableHazard: some object reachable from t (through properties, items, keys, values, members,
-// linked references, scope tables) is a shorthand or default-expansion cycle; inputs nested anywhere
-// below t could then exhaust the stack.
+// linked references, scope tables) is a default-expansion cycle (known finding of C04 on Go-built schemas
+// too); inputs nested anywhere below t could then exhaust the stack.
 func reachableHazard(t schema.Type) (hazard bool) {
 	_ = sup.Guard(func() {
 		seen := map[any]bool{}
@@ -204,7 +204,9 @@ func reachableHazard(t schema.Type) (hazard bool) {
 					}
 				}
 			case *schema.ObjectSchema:
-				if shorthandHazard(y) || defaultCycleHazard(y) {
+				// (a cycle of single-property objects is no hazard any more: the shorthand has a guard, and a
+				// non-mapping value must come back with an error - a hang there is a verdict)
+				if defaultCycleHazard(y) {
 					return true
 				}
 				for _, p := range y.Properties() {
@@ -300,6 +302,8 @@ func (e *exerciser) walk(node string, t schema.Type, depth int) {
 			valids = append(valids, namedVal{fmt.Sprintf("valid%d", i), v})
 		}
 	})
+	e.guard("unitValues", node, "-", func() { valids = append(valids, unitValues(t)...) })
+	e.formatUnits(node, t)
 	e.opsOn(node, t, valids)
 	e.guard("ReflectedType", node, "-", func() { _ = t.ReflectedType() })
 	e.guard("TypeID", node, "-", func() { _ = t.TypeID() })
@@ -355,6 +359,99 @@ func (e *exerciser) walk(node string, t schema.Type, depth int) {
 			e.walk(fmt.Sprintf("%s/types.%d", node, k), m, depth+1)
 		}
 	}
+}
+
+// formatUnits: the formatting operations of the units a loaded number schema carries (what a user interface
+// or an error message does with a quantity), on a few quantities.
+func (e *exerciser) formatUnits(node string, t schema.Type) {
+	var units *schema.UnitsDefinition
+	e.guard("Units", node, "-", func() {
+		switch x := t.(type) {
+		case *schema.IntSchema:
+			units = x.Units()
+		case *schema.FloatSchema:
+			units = x.Units()
+		case *schema.IntEnumSchema:
+			units = x.Units()
+		}
+	})
+	if units == nil {
+		return
+	}
+	for _, q := range []int64{0, 1, 5, 2049, 100000, -3} {
+		q := q
+		c := fmt.Sprintf("quantity:%d", q)
+		e.guard("FormatShortInt", node, c, func() { _ = units.FormatShortInt(q) })
+		e.guard("FormatLongInt", node, c, func() { _ = units.FormatLongInt(q) })
+		e.guard("FormatShortFloat", node, c, func() { _ = units.FormatShortFloat(float64(q) + 0.5) })
+		e.guard("FormatLongFloat", node, c, func() { _ = units.FormatLongFloat(float64(q) + 0.5) })
+	}
+}
+
+// unitValues: for a number with units, quantities written with the base unit and with EVERY multiplier
+// name (short and long, singular and plural), and numbers violating each bound - the rejection message
+// formats the bound with the units, so that code runs as well.
+func unitValues(t schema.Type) []namedVal {
+	var units *schema.UnitsDefinition
+	var lo, hi []any
+	switch x := t.(type) {
+	case *schema.IntSchema:
+		units = x.Units()
+		if x.Min() != nil {
+			lo = []any{*x.Min() - 1}
+		}
+		if x.Max() != nil {
+			hi = []any{*x.Max() + 1, *x.Max() + 100000}
+		}
+	case *schema.FloatSchema:
+		units = x.Units()
+		if x.Min() != nil {
+			lo = []any{*x.Min() - 0.5}
+		}
+		if x.Max() != nil {
+			hi = []any{*x.Max() + 0.5, *x.Max() + 100000}
+		}
+	case *schema.IntEnumSchema:
+		units = x.Units()
+		lo = []any{int64(-12345)}
+		hi = []any{int64(123456789)}
+	default:
+		return nil
+	}
+	var out []namedVal
+	for i, v := range lo {
+		out = append(out, namedVal{fmt.Sprintf("below_min%d", i), v})
+	}
+	for i, v := range hi {
+		out = append(out, namedVal{fmt.Sprintf("above_max%d", i), v})
+	}
+	if units == nil {
+		return out
+	}
+	names := func(u *schema.UnitDefinition) []string {
+		if u == nil {
+			return nil
+		}
+		return []string{u.NameShortSingular(), u.NameShortPlural(), u.NameLongSingular(), u.NameLongPlural()}
+	}
+	all := names(units.BaseUnit())
+	keys := make([]int64, 0, len(units.Multipliers()))
+	for k := range units.Multipliers() {
+		keys = append(keys, k)
+	}
+	sort.Slice(keys, func(i, j int) bool { return keys[i] < keys[j] })
+	for _, k := range keys {
+		all = append(all, names(units.Multipliers()[k])...)
+	}
+	for i, n := range all {
+		out = append(out, namedVal{fmt.Sprintf("unit%d", i), "5" + n}, namedVal{fmt.Sprintf("unit%d_spaced", i), "1 " + n},
+			namedVal{fmt.Sprintf("unit%d_big", i), "100000" + n})
+	}
+	if len(all) >= 5 {
+		out = append(out, namedVal{"unit_compound", "2" + all[4] + "3" + all[0]})
+	}
+	out = append(out, namedVal{"unit_bare", "5"}, namedVal{"unit_unknown", "5zz"})
+	return out
 }
 
 // validValues builds inputs a well-behaved caller would send, by reading the schema through its
